@@ -7,7 +7,7 @@
 cd /verif
 PROPS=${*:-C01 C02 C03 C04 C05 C06 C07 C08 C09 C10 C11 C12 C13 C14 C15 C16 C17 C18 C19 C20}
 for P in $PROPS; do
-  for D in seeded/$P-agent*; do
+  for D in /verif/seeded/$P-agent*; do
     [ -f "$D/patch.diff" ] || continue
     WT=/tmp/reg-$P-$$
     git -C /repo worktree add -q "$WT" HEAD || exit 2
